@@ -334,6 +334,24 @@ void reb_simulation_remove_all_particles(struct reb_simulation* const r){
 }
 
 int reb_simulation_remove_particle(struct reb_simulation* const r, int index, int keep_sorted){
+    // Validate the request before any bookkeeping is touched. A request that fails must not change the simulation.
+	if (index >= (int)r->N || index < 0){
+		char warning[1024];
+        sprintf(warning, "Index %d passed to particles_remove was out of range (N=%d).  Did not remove particle.", index, r->N);
+		reb_simulation_error(r, warning);
+		return 0;
+	}
+	if (r->N_var){
+		reb_simulation_error(r, "Removing particles not supported when calculating MEGNO.  Did not remove particle.");
+		return 0;
+	}
+    if (r->integrator == REB_INTEGRATOR_MERCURIUS || r->integrator == REB_INTEGRATOR_TRACE){
+        keep_sorted = 1; // Force keep_sorted for hybrid integrators
+    }
+    if (keep_sorted && r->tree_root){
+        reb_simulation_error(r, "REBOUND cannot remove a particle a tree and keep the particles sorted. Did not remove particle.");
+        return 0;
+    }
     if (r->integrator == REB_INTEGRATOR_MERCURIUS){
         keep_sorted = 1; // Force keep_sorted for hybrid integrator
         struct reb_integrator_mercurius* rim = &(r->ri_mercurius);
@@ -401,23 +419,13 @@ int reb_simulation_remove_particle(struct reb_simulation* const r, int index, in
         }
     }
 
-	if (r->N==1){
+	if (r->N==1 && r->tree_root==NULL){ // With a tree, the last particle is flagged and removed in update_tree like any other.
 	    r->N = 0;
         if(r->free_particle_ap){
             r->free_particle_ap(&r->particles[index]);
         }
 		reb_simulation_warning(r, "Last particle removed.");
 		return 1;
-	}
-	if (index >= (int)r->N || index < 0){
-		char warning[1024];
-        sprintf(warning, "Index %d passed to particles_remove was out of range (N=%d).  Did not remove particle.", index, r->N);
-		reb_simulation_error(r, warning);
-		return 0;
-	}
-	if (r->N_var){
-		reb_simulation_error(r, "Removing particles not supported when calculating MEGNO.  Did not remove particle.");
-		return 0;
 	}
 	if(keep_sorted){
 	    r->N--;
@@ -430,10 +438,6 @@ int reb_simulation_remove_particle(struct reb_simulation* const r, int index, in
 		for(unsigned int j=index; j<r->N; j++){
 			r->particles[j] = r->particles[j+1];
 		}
-        if (r->tree_root){
-		    reb_simulation_error(r, "REBOUND cannot remove a particle a tree and keep the particles sorted. Did not remove particle.");
-		    return 0;
-        }
 	}else{
         if (r->tree_root){
             // Just flag particle, will be removed in update_tree.
